@@ -35,7 +35,7 @@ type GridCase struct {
 }
 
 var gridKinds = []string{"view", "view-raw", "diff", "copy", "sum", "sum-copy", "sum-diff", "generate"}
-var gridEnvs = []string{"none", "textout-unopenable", "textout-devfull", "src-missing", "src-corrupt", "dst-parent-is-file", "dst-exists", "dst-missing", "dst-method-7", "src-layout-mismatch", "src-dangling-symlink", "pattern-matches-nothing"}
+var gridEnvs = []string{"none", "textout-unopenable", "textout-devfull", "src-missing", "src-corrupt", "dst-parent-is-file", "dst-exists", "dst-missing", "dst-method-7", "src-layout-mismatch", "src-dangling-symlink", "pattern-matches-nothing", "new-dst-layout-mismatch"}
 var gridTextOuts = []string{"none", "stdout", "file"}
 
 func gridArchSels(n int) []string {
@@ -84,7 +84,7 @@ var (
 	enumWindows  = []string{"default", "past", "future", "beyond-finest", "degenerate", "from-after-until", "beyond-1", "beyond-2", "beyond-3"}
 )
 
-const gridEnumSize = 8 * 7 * 9 * 12 * 3 * 2 * 2 * 2
+const gridEnumSize = 8 * 7 * 9 * 13 * 3 * 2 * 2 * 2
 
 // genEnumerated decodes run index idx into (world number, cell): the thorough
 // tier walks the whole grid for one seeded world after the other.
@@ -99,7 +99,7 @@ func genEnumerated(idx int) *GridCase {
 	c.Kind = gridKinds[take(8)]
 	c.ArchSel = enumArchSels[take(7)]
 	c.Window = enumWindows[take(9)]
-	c.EnvFault = gridEnvs[take(12)]
+	c.EnvFault = gridEnvs[take(len(gridEnvs))]
 	c.TextOut = gridTextOuts[take(3)]
 	c.Remote = take(2) == 1
 	c.ViaParse = take(2) == 1
@@ -335,6 +335,21 @@ func (gridSim) Run(e *Env, ci interface{}) {
 		default:
 			fault = "none"
 		}
+	case "new-dst-layout-mismatch":
+		// the destination does not exist and the layout requested for it differs
+		// from the sources' in the point count of the last archive
+		if c.Kind != "copy" && c.Kind != "sum-copy" {
+			fault = "none"
+		} else {
+			os.Remove(dstPath)
+			l2 := Layout{Archs: append([]Arch(nil), c.Layout.Archs...), Method: c.Layout.Method, Xff: c.Layout.Xff}
+			l2.Archs[len(l2.Archs)-1].N += 1 + int64(c.SchedSeed%4)
+			if l2.Valid() {
+				cm.Create = l2
+			} else {
+				fault = "none"
+			}
+		}
 	case "src-layout-mismatch":
 		// the last source file of the item has one point more in its last archive
 		if c.Kind != "sum" && c.Kind != "sum-copy" && c.Kind != "sum-diff" {
@@ -487,7 +502,7 @@ func (gridSim) Run(e *Env, ci interface{}) {
 			return
 		}
 	case "copy", "sum-copy":
-		if fault == "src-missing" || fault == "src-corrupt" || fault == "dst-parent-is-file" || fault == "dst-method-7" || fault == "src-layout-mismatch" || fault == "src-dangling-symlink" || fault == "pattern-matches-nothing" {
+		if fault == "src-missing" || fault == "src-corrupt" || fault == "dst-parent-is-file" || fault == "dst-method-7" || fault == "src-layout-mismatch" || fault == "src-dangling-symlink" || fault == "pattern-matches-nothing" || fault == "new-dst-layout-mismatch" {
 			silent("its environment was %s", fault)
 			return
 		}
